@@ -23,7 +23,9 @@ type Event struct {
 	Blk, Calli     uint64
 	Line, Col, Off uint64
 	Text           []byte
-	Args           []Val
+	// PtLine, PtCol, PtOff: the parser's own position (p.pt) when the block was called
+	PtLine, PtCol, PtOff uint64
+	Args                 []Val
 	State, Global  Store
 }
 
@@ -114,6 +116,7 @@ func ParseResult(line string) (*Result, error) {
 			r.fail(fmt.Errorf("expected ev, got %q", clip(t)))
 		}
 		ev := Event{Blk: r.n(), Calli: r.n(), Line: r.n(), Col: r.n(), Off: r.n(), Text: r.hb()}
+		ev.PtLine, ev.PtCol, ev.PtOff = r.n(), r.n(), r.n()
 		m := r.cnt()
 		for j := 0; j < m && r.err == nil; j++ {
 			ev.Args = append(ev.Args, r.val(0))
@@ -182,6 +185,9 @@ func (res *Result) String() string {
 		p.n(ev.Col)
 		p.n(ev.Off)
 		p.hb(ev.Text)
+		p.n(ev.PtLine)
+		p.n(ev.PtCol)
+		p.n(ev.PtOff)
 		p.d(len(ev.Args))
 		for _, a := range ev.Args {
 			p.val(a)
